@@ -155,6 +155,12 @@ def b_not(v):
     a = un(v, "not")
     if a is not None:
         return a[0]
+    # one normal form: negation is pushed down to the sign leaves (over the reals: not (e < 0) = (-e <= 0); De Morgan)
+    u = unfn(v)
+    if u is not None and u[0] in ("lt0", "le0"):
+        return le0(-u[1][0]) if u[0] == "lt0" else lt0(-u[1][0])
+    if u is not None and u[0] in ("and", "or"):
+        return (b_or if u[0] == "and" else b_and)([b_not(x) for x in u[1]])
     return F.fn("not", v)
 
 
@@ -316,7 +322,46 @@ class Facts:
             for f in self.ne:
                 if eq(f, e) or eq(f, -e):
                     return False
+        sg = self.sign(e)
+        if sg is not None:
+            return {"lt0": sg < 0, "le0": sg <= 0, "eq0": sg == 0}[kind]
         return None
+
+    def sign(self, e, depth=0):
+        """sign (-1 | 0 | 1) of a product / quotient of factors whose signs the facts give (max / min of such factors included); None: not known"""
+        if not israt(e) or depth > 4:
+            return None
+        c = const_of(e)
+        if c is not None:
+            return (c > 0) - (c < 0)
+        if len(e.n.t) != 1 or len(e.d.t) != 1:
+            return None
+        sg = 1
+        for p_ in (e.n, e.d):
+            (m, c), = p_.t.items()
+            sg *= (c > 0) - (c < 0)
+            for a, k in m:
+                av = F.Rat(F.Poly.atom(a))
+                s1 = None
+                iv = self._interval(av)
+                if iv is not None:
+                    lo, lo_o, hi, hi_o = iv
+                    if lo is not None and (lo > 0 or (lo == 0 and lo_o)):
+                        s1 = 1
+                    elif hi is not None and (hi < 0 or (hi == 0 and hi_o)):
+                        s1 = -1
+                if s1 is None:
+                    u = unfn(av)
+                    if u is not None and u[0] in ("max", "min"):
+                        ss = [self.sign(x, depth + 1) for x in u[1]]
+                        if all(x == 1 for x in ss) or (u[0] == "max" and any(x == 1 for x in ss)):
+                            s1 = 1
+                        elif all(x == -1 for x in ss) or (u[0] == "min" and any(x == -1 for x in ss)):
+                            s1 = -1
+                if s1 is None:
+                    return None
+                sg *= s1 ** k
+        return sg
 
     def atom(self, v):
         for a, t in self.atoms:
@@ -468,6 +513,7 @@ class V:
         self.rebound = set()
         self.brk = False
         self.fn = None                  # the function whose body this frame evaluates (None: the rule's anchor)
+        self.view_of = {}               # local -> names of the arrays the statement that bound it took a view of
         self.local_funcs = {}
 
     # ---- helpers
@@ -883,9 +929,34 @@ class V:
             return old
         return F.fn("store", old, ix, v)
 
+    @staticmethod
+    def _view_root(v):
+        """the array a numpy view value is a view of (None: v is not a view of another array)"""
+        root = None
+        while israt(v):
+            a = un(v, "idx")
+            if a is not None:
+                parts = ix_parts(a[1])
+                if any(un(p_, "lt0") or un(p_, "le0") or un(p_, "eq0") or un(p_, "and") or un(p_, "or") or un(p_, "not") for p_ in parts) or \
+                        find_atoms(a[1], lambda n_, a_: n_ in ("call:np.searchsorted", "call:np.nonzero", "call:np.flatnonzero", "call:np.arange", "call:np.argsort", "call:np.where")):
+                    break          # a mask / an index array selects a copy
+                if un(a[0], "attr:shape") is not None:
+                    break
+                v = root = a[0]
+                continue
+            a = un(v, "call:np.transpose") or un(v, "col") or un(v, "call:np.ravel") or un(v, "call:np.swapaxes")
+            if a is not None and not isinstance(a[0], str):
+                v = root = a[0]
+                continue
+            break
+        return root
+
     def index_value(self, sl):
         if isinstance(sl, ast.Tuple):
-            return F.fn("tuple", *[as_rat(self.index_value(e)) for e in sl.elts])
+            parts = [as_rat(self.index_value(e)) for e in sl.elts]
+            while len(parts) > 1 and (is_sym(parts[-1], "Ellipsis") or eq(parts[-1], FULL)) and not any(is_sym(p_, "Ellipsis") for p_ in parts[:-1]):
+                parts.pop()          # X[i, ...] = X[i, :] = X[i]
+            return parts[0] if len(parts) == 1 else F.fn("tuple", *parts)
         if isinstance(sl, ast.Slice):
             parts = []
             for p in (sl.lower, sl.upper, sl.step):
@@ -958,11 +1029,22 @@ class V:
                 root = d.split(".")[0]
                 if self.lookup(root) is None and (root in self.sh.modnames or root in self.sh.inline):
                     return F.sym(CONSTS[d]) if d in CONSTS else F.sym(d)
+            if d is not None and "." in d and self.lookup(d) is not None:
+                return self.lookup(d)          # ns.x after `ns.x = v` (a local namespace object; also seen from a closure)
             base = self._ev(node.value)
             if is_unknown(base):
                 return base
+            if isinstance(base, PyTuple) and self.sh.concrete and node.attr in ("size", "shape", "ndim", "T"):
+                # finite-world evaluation: a 1-D array of known length
+                return {"size": F.const(len(base)), "shape": PyTuple((F.const(len(base)),)), "ndim": F.const(1), "T": base}[node.attr]
             if isinstance(base, tuple) or isinstance(base, DictValue):
                 return Unknown(f"attribute of a tuple {ast.unparse(node)}")
+            if israt(base):
+                for ns_ in ("call:SimpleNamespace", "call:types.SimpleNamespace"):
+                    a_ = un(base, ns_)
+                    if a_ is not None:
+                        kw_ = call_args(a_)[1]
+                        return kw_[node.attr] if node.attr in kw_ else Unknown(f"attribute {node.attr} of a namespace")
             if node.attr == "T":
                 return self.np_call("np.transpose", [base], {}, node)
             if node.attr == "real":
@@ -1120,6 +1202,9 @@ class V:
             a, b = [F.const(1 if is_sym(x, "True") else 0) if (is_sym(x, "True") or is_sym(x, "False")) else x for x in (a, b)]          # True == 1
         if isinstance(op, ast.FloorDiv):
             return self.floordiv(a, b)
+        if isinstance(op, (ast.LShift, ast.RShift)) and int_of(b) is not None and 0 <= int_of(b) <= 62:
+            # integer shifts by a constant:  x << k = x * 2**k,  x >> k = x // 2**k
+            return a * F.const(2 ** int_of(b)) if isinstance(op, ast.LShift) else self.floordiv(a, F.const(2 ** int_of(b)))
         if self.sh.binop is not None and node is not None:
             r = self.sh.binop(node, a, b, self)
             if r is not NotImplemented:
@@ -1189,6 +1274,13 @@ class V:
         except Unsupported:
             pass
         try:
+            # (x + b - 1) // b = ceil(x / b) for integers x and b > 0 (the ceiling-division idiom): the same value as math.ceil(x / b) and -(-x // b)
+            x = a - b + 1
+            if israt(x) and len(x.n.t) < len(a.n.t) and self.integral(x) and self.integral(b) and V(self.sh.scratch()).truth(lt0(-b)) is True:
+                return -F.fn("floor", -x / b)
+        except Unsupported:
+            pass
+        try:
             return F.fn("floor", a / b)          # a // b = floor(a / b);  ceil(x) = -floor(-x): `-(-a // b)` and `ceil(a / b)` are one value
         except Unsupported:
             return F.fn("floordiv", a, b)
@@ -1203,8 +1295,14 @@ class V:
                 return False
             for a, _e in m:
                 d = F.atom_desc(a)
-                if not ((d[0] == "s" and d[1] in self.sh.index_syms) or (d[0] == "fn" and d[1] in ("floor", "len"))):
-                    return False
+                if (d[0] == "s" and d[1] in self.sh.index_syms) or (d[0] == "fn" and d[1] in ("floor", "len", "attr:size", "attr:ndim")):
+                    continue
+                if d[0] == "fn" and d[1] == "idx" and not isinstance(d[2][0], str):
+                    base_ = F.Rat(F._poly_from_key(d[2][0][1]), F._poly_from_key(d[2][0][2]))
+                    ix_ = F.Rat(F._poly_from_key(d[2][1][1]), F._poly_from_key(d[2][1][2]))
+                    if un(base_, "attr:shape") is not None and int_of(ix_) is not None:
+                        continue          # an extent of an array
+                return False
         return True
 
     def compare(self, node):
@@ -1307,6 +1405,10 @@ class V:
         f = node.func
         name = dotted(f)
         callee = None
+        if isinstance(f, ast.Lambda):
+            # (lambda args: expr)(values): a local function with one return, applied on the spot
+            r = self.inline_call(node, self._lambda_def(f, "<lambda>"), self.env)
+            return r if r is not NotImplemented else Unknown("lambda applied with arguments that cannot be placed")
         if isinstance(f, ast.Attribute) and f.attr in ("append", "extend") and isinstance(f.value, ast.Name) and isinstance(self.env.get(f.value.id), PyTuple) \
                 and len(node.args) == 1 and not node.keywords and not isinstance(node.args[0], ast.Starred):
             # a list local built up with append / extend
@@ -1368,10 +1470,33 @@ class V:
                 return callee
             return self.record("<apply>", pos, kw, node, callee)
         outk = next((k for k in node.keywords if k.arg == "out"), None)
+        if outk is None and name is not None and name.split(".")[0] in ("np", "numpy") and "where" in kw and not is_sym(kw["where"], "True") and name.rsplit(".", 1)[-1] != "where":
+            return Unknown(f"{name} with where= and no out=: the other elements are not initialised")
         if outk is not None and name is not None and name.split(".")[0] in ("np", "numpy") and isinstance(outk.value, (ast.Name, ast.Subscript)):
             # np.f(a, b, out=X): X receives the result (in place) and is the value of the call
             kw = {k: v for k, v in kw.items() if k != "out"}
-            val = self.np_call(name, pos, kw, node)
+            m_ = kw.pop("where", None)
+            if m_ is not None and not is_sym(m_, "True"):
+                # ufunc(x..., out=X, where=m):  X[m] = ufunc(x[m]...) , the other elements of X keep their value
+                short = name[3:] if name.startswith("np.") else name[6:]
+                if not (("np." + short) in UNARY_FUNCS or short in ("add", "subtract", "multiply", "divide", "true_divide", "negative", "abs", "absolute", "maximum", "minimum", "power")) \
+                        or not all(israt(x) for x in pos) or not israt(m_) or kw:
+                    val = Unknown(f"{name} with where= is not modelled")
+                else:
+                    import copy
+                    ld = copy.copy(outk.value)
+                    ld.ctx = ast.Load()
+                    cur = self.ev(ld)
+                    args_ = [x if (const_of(x) is not None or self.rank(x) == 0) else self.mk_idx(x, m_) for x in pos]
+                    inner = self.np_call(name, args_, {}, node)
+                    val = self.mk_store(cur, m_, inner) if not (is_unknown(cur) or is_unknown(inner)) else (cur if is_unknown(cur) else inner)
+                    if isinstance(outk.value, ast.Name):
+                        self.env[outk.value.id] = val
+                        self.mutated.add(outk.value.id)
+                        self.sh.cells.append(CellRec(cur, m_, inner, val, node, tuple(self.sh.loop_stack)))
+                        return val
+            else:
+                val = self.np_call(name, pos, kw, node)
             self.assign(outk.value, val, node)
             if isinstance(outk.value, ast.Name):
                 self.mutated.add(outk.value.id)
@@ -1407,7 +1532,7 @@ class V:
                 pass
         if name in IDENT_CALLS and n >= 1:
             return pos[0]
-        if name in ("abs", "np.abs", "np.absolute", "np.fabs") and n == 1 and israt(pos[0]):
+        if name in ("abs", "np.abs", "np.absolute", "np.fabs", "math.fabs") and n == 1 and not kw and israt(pos[0]):
             c = const_of(pos[0])
             return F.const(abs(c)) if c is not None else F.fn("abs", pos[0])
         if name == "dict" and not pos:
@@ -1465,13 +1590,16 @@ class V:
             return -pos[0]
         if name in ("max", "min", "np.maximum", "np.minimum", "np.fmax", "np.fmin") and n >= 2 and not kw and all(israt(x) for x in pos):
             return self.extremum("max" if "max" in name else "min", pos)
-        if name == "np.clip" and n == 3 and not kw and israt(pos[0]):
-            v = pos[0]
-            if not is_sym(pos[1], "None"):
-                v = self.extremum("max", [v, pos[1]])
-            if not is_sym(pos[2], "None"):
-                v = self.extremum("min", [v, pos[2]])
-            return v
+        if name == "np.clip" and 1 <= n <= 3 and israt(pos[0]) and set(kw) <= {"a_min", "a_max", "min", "max"}:
+            lo_ = pos[1] if n >= 2 else kw.get("a_min", kw.get("min", NONE))
+            hi_ = pos[2] if n >= 3 else kw.get("a_max", kw.get("max", NONE))
+            if israt(lo_) and israt(hi_) and not (n >= 2 and ("a_min" in kw or "min" in kw)) and not (n >= 3 and ("a_max" in kw or "max" in kw)):
+                v = pos[0]
+                if not is_sym(lo_, "None"):
+                    v = self.extremum("max", [v, lo_])
+                if not is_sym(hi_, "None"):
+                    v = self.extremum("min", [v, hi_])
+                return v
         if name == "np.where" and n == 3 and not kw:
             c = V(self.sh.scratch()).truth(pos[0]) if self.sh.elementwise_where else self.truth(pos[0])          # (scratch: facts only, no oracle)
             self.sh.tests.append((pos[0], c, node, tuple(self.sh.loop_stack)))
@@ -1490,6 +1618,14 @@ class V:
             return self.np_call(name, pos[1:], kw, node)
         if self.sh.concrete and name in ("np.zeros", "np.ones", "np.empty") and n >= 1 and int_of(pos[0]) is not None and 0 <= int_of(pos[0]) <= 64:
             return PyTuple([F.const(1 if name == "np.ones" else 0)] * int_of(pos[0]))          # a 1-D array of known length, element by element
+        if self.sh.concrete and name in ("np.zeros_like", "np.ones_like", "np.empty_like", "np.full_like") and n >= 1 and isinstance(pos[0], PyTuple):
+            fill = F.const(1) if name == "np.ones_like" else (pos[1] if name == "np.full_like" and n >= 2 else kw.get("fill_value", F.const(0)))
+            return PyTuple([fill] * len(pos[0]))
+        if self.sh.concrete and name == "np.full" and n >= 2 and int_of(pos[0]) is not None and 0 <= int_of(pos[0]) <= 64:
+            return PyTuple([pos[1]] * int_of(pos[0]))
+        if self.sh.concrete and name in ("np.zeros", "np.ones", "np.empty") and n >= 1 and isinstance(pos[0], PyTuple) and len(pos[0]) == 1 and int_of(pos[0][0]) is not None \
+                and 0 <= int_of(pos[0][0]) <= 64:
+            return PyTuple([F.const(1 if name == "np.ones" else 0)] * int_of(pos[0][0]))          # np.zeros((n,)) / np.zeros(x.shape)
         if name in ("np.zeros", "np.ones", "np.empty") and (n >= 1 or "shape" in kw):
             return F.fn(name[3:], as_rat(pos[0] if n else kw["shape"]))
         if name in ("np.zeros_like", "np.ones_like", "np.empty_like") and n >= 1 and israt(pos[0]):
@@ -1542,6 +1678,11 @@ class V:
                 keep.append(v)
         if len(keep) == 1:
             return keep[0]
+        # min(c / a, c / b) = c / max(a, b) for positive a, b and a constant c > 0 (reciprocals reverse the order)
+        nums = {fkey(F.Rat(v.n)) for v in keep}
+        if len(nums) == 1 and keep[0].n.is_const() and keep[0].n.const_value() > 0 and not any(v.d.is_const() for v in keep) \
+                and all(facts_only.truth(lt0(-F.Rat(v.d))) is True for v in keep):
+            return F.Rat(keep[0].n) / self.extremum("min" if kind == "max" else "max", [F.Rat(v.d) for v in keep])
         ks = sorted(keep, key=fkey)
         return F.fn(kind, *ks)
 
@@ -1570,6 +1711,13 @@ class V:
         if args is None:
             args = dict(kw)
         self.sh.calls.append(CallRec(name, list(pos), dict(kw), node, val, callee, tuple(self.sh.loop_stack), args))
+
+    @staticmethod
+    def _lambda_def(lam, name):
+        fd = ast.FunctionDef(name=name, args=lam.args, body=[ast.copy_location(ast.Return(value=lam.body), lam)], decorator_list=[], returns=None, type_comment=None)
+        ast.copy_location(fd, lam)
+        ast.fix_missing_locations(fd)
+        return fd
 
     def inline_call(self, node, fn, outer):
         if fn is None or self.depth >= 5:
@@ -1603,6 +1751,8 @@ class V:
                 env[p_] = sub0.ev(d)
         sub = V(self.sh, env, outer, self.depth + 1)
         sub.fn = fn
+        if outer is not None:
+            sub.local_funcs = dict(self.local_funcs)          # a closure sees the other local functions of the scope that defines it
         sub.run(fn.body)
         # in-place updates of a mutable argument are visible to the caller
         for p_, an in zip(params, node.args):
@@ -1659,6 +1809,39 @@ class V:
             if isinstance(b, ast.Name):
                 old = self._name(b.id)
                 ix = self.index_value(target.slice)
+                root = self._view_root(old)
+                if root is not None:
+                    # a store through a view (row / column / slice / transpose / reshape of another array) also changes that array: nothing that may write is skipped.
+                    # view = X[jx] held by a local: view[ix] = v  is  X[jx o ix] = v  (composed by the index algebra); otherwise the arrays involved become unknown
+                    a_ = un(old, "idx")
+                    comp = None
+                    if a_ is not None and eq(a_[0], root) and not is_unknown(ix) and not is_unknown(v):
+                        if eq(ix, FULL) or is_sym(ix, "Ellipsis"):
+                            comp = a_[1]
+                        else:
+                            loc = self.mk_idx(old, ix)
+                            l_ = un(loc, "idx") if israt(loc) else None
+                            comp = l_[1] if l_ is not None and eq(l_[0], root) else None
+                    holders = [k_ for k_, x_ in self.env.items() if k_ != b.id and israt(x_) and eq(x_, root)]
+                    if len(holders) > 1:
+                        # several arrays with the same content: values do not tell which one is viewed, the statement that made the view does
+                        named = [k_ for k_ in holders if k_ in self.view_of.get(b.id, ())]
+                        holders = named if len(named) == 1 else holders
+                    if comp is not None and len(holders) == 1:
+                        newroot = self.mk_store(root, comp, v)
+                        for k_ in holders:
+                            self.env[k_] = newroot
+                            self.mutated.add(k_)
+                        self.sh.cells.append(CellRec(root, comp, v, newroot, st, tuple(self.sh.loop_stack)))
+                        for k_, x_ in list(self.env.items()):
+                            if k_ != b.id and k_ not in holders and israt(x_) and find_atoms(x_, lambda n_, a2, r_=fkey(root): n_ == "idx" and fkey(a2[0]) == r_):
+                                self.env[k_] = Unknown(f"a view of an array written through the view {b.id}")
+                        self.env[b.id] = self.mk_idx(newroot, a_[1])
+                        self.mutated.add(b.id)
+                        return
+                    for k_, x_ in list(self.env.items()):
+                        if k_ != b.id and israt(x_) and (eq(x_, root) or find_atoms(x_, lambda n_, a2, r_=fkey(root): n_ == "idx" and fkey(a2[0]) == r_)):
+                            self.env[k_] = Unknown(f"written through the view {b.id}")
                 new = self.mk_store(old, ix, v)
                 self.env[b.id] = new
                 self.mutated.add(b.id)
@@ -1672,7 +1855,17 @@ class V:
     def stmt(self, st):
         if self.done or self.skip:
             return
+        if isinstance(st, (ast.Assign, ast.For)):
+            al = self._alias_roots(ast.Assign(targets=st.targets, value=st.value) if isinstance(st, ast.Assign) else ast.For(target=st.target, iter=st.iter, body=[], orelse=[]))
+            for k_ in {x.id for t_ in (st.targets if isinstance(st, ast.Assign) else [st.target]) for x in ast.walk(t_) if isinstance(x, ast.Name)}:
+                self.view_of[k_] = al.get(k_, set())
         if isinstance(st, ast.Assign):
+            if isinstance(st.value, ast.Lambda) and len(st.targets) == 1 and isinstance(st.targets[0], ast.Name):
+                # name = lambda args: expr  -- a local function with one return
+                fd = self._lambda_def(st.value, st.targets[0].id)
+                self.local_funcs[fd.name] = (fd, self.env)
+                self.env.pop(fd.name, None)
+                return
             v = self.ev(st.value)
             for t in st.targets:
                 self.assign(t, v, st)
@@ -1707,8 +1900,49 @@ class V:
             self._havoc(st, f"assigned inside {type(st).__name__}")
         # Pass, Assert, Import, Global, Nonlocal, ClassDef: no effect on values
 
+    @staticmethod
+    def _alias_roots(st):
+        """{local: names of the arrays it may be a view of}, read off the assignments / loop targets inside st (N = M[...], N = M.T, for N in M, for A, B in zip(M.T, K))"""
+        def root(e):
+            while True:
+                if isinstance(e, ast.Subscript):
+                    e = e.value
+                elif isinstance(e, ast.Attribute) and e.attr in ("T", "flat", "real"):
+                    e = e.value
+                elif isinstance(e, ast.Call) and (dotted(e.func) or "").rsplit(".", 1)[-1] in ("transpose", "ravel", "reshape", "swapaxes", "atleast_1d", "atleast_2d", "asarray", "squeeze", "view") \
+                        and (e.args or isinstance(e.func, ast.Attribute)):
+                    e = e.func.value if isinstance(e.func, ast.Attribute) and not (dotted(e.func) or "").startswith(("np.", "numpy.")) else (e.args[0] if e.args else None)
+                else:
+                    return e.id if isinstance(e, ast.Name) else None
+        out = {}
+
+        def bind(tg, val):
+            if isinstance(tg, ast.Name):
+                r = root(val) if val is not None else None
+                if r is not None and r != tg.id and isinstance(val, (ast.Subscript, ast.Attribute, ast.Call, ast.Name)):
+                    out.setdefault(tg.id, set()).add(r)
+            elif isinstance(tg, (ast.Tuple, ast.List)):
+                if isinstance(val, (ast.Tuple, ast.List)) and len(val.elts) == len(tg.elts):
+                    for t_, v_ in zip(tg.elts, val.elts):
+                        bind(t_, v_)
+                elif isinstance(val, ast.Call) and (dotted(val.func) or "") == "zip" and len(val.args) == len(tg.elts):
+                    for t_, v_ in zip(tg.elts, val.args):
+                        bind(t_, v_)
+                elif isinstance(val, ast.Call) and (dotted(val.func) or "") == "enumerate" and val.args and len(tg.elts) == 2:
+                    bind(tg.elts[1], val.args[0])
+        for n in ast.walk(st):
+            if isinstance(n, ast.Assign):
+                for t_ in n.targets:
+                    bind(t_, n.value)
+            elif isinstance(n, ast.For):
+                bind(n.target, n.iter)
+            elif isinstance(n, ast.NamedExpr):
+                bind(n.target, n.value)
+        return out
+
     def _written(self, st):
         out = set()
+        alias = None
         for n in ast.walk(st):
             tg = []
             if isinstance(n, ast.Assign):
@@ -1728,6 +1962,14 @@ class V:
                         out.add(x.id)
                     elif isinstance(x, ast.Subscript) and isinstance(x.value, ast.Name) and isinstance(x.ctx, ast.Store):
                         out.add(x.value.id)
+                        if alias is None:
+                            alias = self._alias_roots(st)
+                        todo = [x.value.id]
+                        while todo:          # a store through a view writes the array viewed
+                            for r_ in alias.get(todo.pop(), ()):
+                                if r_ not in out:
+                                    out.add(r_)
+                                    todo.append(r_)
         return out
 
     def _havoc(self, st, why):
@@ -1790,6 +2032,8 @@ class V:
                 s = self.ev(it.args[1]) if len(it.args) == 2 else F.const(0)
                 if not israt(s):
                     return Unknown("enumerate start"), None
+                if n == "unroll":
+                    return PyTuple(PyTuple((s + i_, y)) for i_, y in enumerate(x)), n          # a sequence known element by element
                 return PyTuple((s + k, x)), n
             if f == "zip" and it.args:
                 xs, ns = [], []
@@ -1797,6 +2041,10 @@ class V:
                     x, n = self._elem(a, k)
                     xs.append(x)
                     ns.append(n)
+                if any(n == "unroll" for n in ns):
+                    if all(n == "unroll" for n in ns):
+                        return PyTuple(PyTuple(t_) for t_ in zip(*xs)), "unroll"
+                    return Unknown("zip of a literal sequence with a computed one"), None
                 n0 = ns[0]
                 return PyTuple(xs), n0
             if f == "reversed":
@@ -1813,6 +2061,15 @@ class V:
     def _loop(self, st):
         sh = self.sh
         written = self._written(st)
+        if isinstance(st, ast.For) and isinstance(st.iter, ast.Call) and (dotted(st.iter.func) or "") in ("product", "itertools.product") and self.lookup("product") is None \
+                and len(st.iter.args) >= 2 and not st.iter.keywords and not st.orelse and isinstance(st.target, (ast.Tuple, ast.List)) and len(st.target.elts) == len(st.iter.args) \
+                and not any(isinstance(a, ast.Starred) for a in st.iter.args) and not any(isinstance(x, ast.Break) for x in ast.walk(st)):
+            # for a, b in product(X, Y): body   ==   for a in X: for b in Y: body      (same order of the iterations)
+            body = st.body
+            for tg, it_ in reversed(list(zip(st.target.elts, st.iter.args))):
+                body = [ast.copy_location(ast.For(target=tg, iter=it_, body=body, orelse=[], type_comment=None), st)]
+            ast.fix_missing_locations(body[0])
+            return self._loop(body[0])
         if isinstance(st, ast.For):
             sh.nloop += 1
             kname = f"@k{sh.nloop}"
@@ -1847,6 +2104,8 @@ class V:
             self.skip = False
             self._leave(pre, written, k, n, rec)
             return
+        if sh.concrete and self._while_concrete(st, written):
+            return
         # counted while:  `while c < n:` ... `c += 1`
         t = st.test
         ctr = lo = hi = None
@@ -1880,6 +2139,31 @@ class V:
         self.skip = False
         self._leave(pre, written - {ctr}, k, n, rec)
         self.env[ctr] = hi
+
+    def _while_concrete(self, st, written, limit=256):
+        """finite-world evaluation: a `while` loop whose test has a truth value each time it is reached is executed iteration by iteration (break, continue and the
+        else arm as in Python).  -> False when the very first test is not decided (nothing was executed: the caller's generic treatment applies); once an iteration
+        has run, a test that is not decided (or too many iterations) leaves everything the loop writes unknown."""
+        for it in range(limit):
+            c = self.truth(self.ev(st.test))
+            if c is None:
+                if it == 0 and not any(isinstance(x, ast.NamedExpr) for x in ast.walk(st.test)):
+                    return False
+                self._havoc(st, "assigned inside a while loop whose test is not decided on this world")
+                return True
+            if not c:
+                self.run(st.orelse)
+                return True
+            self.skip = False
+            self.run(st.body)
+            self.skip = False
+            if self.done:
+                return True
+            if self.brk:
+                self.brk = False
+                return True
+        self._havoc(st, f"assigned inside a while loop that runs more than {limit} times")
+        return True
 
     def _enter(self, names, k):
         """variables written in the loop start a generic iteration with an unknown (carried) value"""
